@@ -29,6 +29,23 @@ impl RecordingContext {
         self.sent.lock().unwrap().push((peer, data));
     }
 
+    /// (transaction hashes, uncle hashes) of every BlockTransactions message sent so far.
+    pub fn block_transactions_replies(&self) -> Vec<(Vec<packed::Byte32>, Vec<packed::Byte32>)> {
+        let mut out = vec![];
+        for (_, data) in self.sent.lock().unwrap().iter() {
+            if let Ok(msg) = packed::RelayMessageReader::from_compatible_slice(data) {
+                if let packed::RelayMessageUnionReader::BlockTransactions(b) = msg.to_enum() {
+                    let b = b.to_entity();
+                    out.push((
+                        b.transactions().into_iter().map(|t| t.calc_tx_hash()).collect(),
+                        b.uncles().into_iter().map(|u| u.header().calc_header_hash()).collect(),
+                    ));
+                }
+            }
+        }
+        out
+    }
+
     /// (transaction indexes, uncle indexes) of every GetBlockTransactions sent so far.
     pub fn get_block_transactions_requests(&self) -> Vec<(Vec<u32>, Vec<u32>)> {
         let mut out = vec![];
